@@ -10,6 +10,12 @@
 //	peer:<kind>:<tokhex>:<mid>:<tag>     the peer emits one message; kind ∈ ack pig con non rst (udp) | resp (tcp)
 //	                                     mid = @<caller> (the message ID of that caller's request) or a literal
 //	blk:<tokhex>:<mid0>:<mid1>:<tag>     the peer answers block-wise in two blocks (only with bw = 1)
+//	blkc:<tokhex>:<mid0>:<mid1>:<tag>    the same; on the stream transport the peer sends a further CSM (Max-Message-Size only, no
+//	                                     Block-Wise-Transfer option) between the two blocks
+//	pipe:<tok>=<tag>,<tok>=<tag>,…       (tcp) the peer writes these responses back to back in one write (pipelined answers)
+//
+// A tag of the form <name>*<n> stands for a payload of <name> followed by n dots (long frames); it is reported in the same form.
+//
 //	cancel:<caller>                      cancels the caller's request context
 //	close                                closes the connection
 //	settle                               nothing (observation point)
@@ -95,7 +101,24 @@ func tagOf(body []byte) string {
 	if len(body) == 0 {
 		return "-"
 	}
+	n := 0
+	for n < len(body) && body[len(body)-1-n] == '.' {
+		n++
+	}
+	if n >= 64 {
+		return fmt.Sprintf("%s*%d", body[:len(body)-n], n)
+	}
 	return string(body)
+}
+
+// expandTag: <name>*<n> -> name followed by n dots
+func expandTag(tag string) []byte {
+	if i := strings.LastIndex(tag, "*"); i > 0 {
+		if n, err := strconv.Atoi(tag[i+1:]); err == nil && n >= 64 {
+			return append([]byte(tag[:i]), bytes.Repeat([]byte{'.'}, n)...)
+		}
+	}
+	return []byte(tag)
 }
 
 func errName(err error) string {
@@ -194,7 +217,7 @@ func injective(ops []string) bool {
 			th = f[2]
 		case "peer":
 			th = f[2]
-		case "blk":
+		case "blk", "blkc":
 			th = f[1]
 		default:
 			continue
@@ -365,7 +388,7 @@ func runUDP(t *testing.T, bw bool, ops []string) (out string) {
 					if err := cc.Process(nil, d); err != nil {
 						panic(err)
 					}
-				case f[0] == "blk" && len(f) == 5:
+				case (f[0] == "blk" || f[0] == "blkc") && len(f) == 5:
 					tok := parseTok(f[1])
 					m0, _ := strconv.Atoi(f[2])
 					m1, _ := strconv.Atoi(f[3])
@@ -512,10 +535,22 @@ func runTCP(t *testing.T, bw bool, ops []string) (out string) {
 					id, _ := strconv.Atoi(f[1])
 					w.startDo(cc, id, parseTok(f[2]), "")
 				case f[0] == "peer" && len(f) == 5 && f[1] == "resp":
-					if err := peer.Write(tcpMsg(codes.Content, parseTok(f[2]), []byte(f[4]))); err != nil {
+					if err := peer.Write(tcpMsg(codes.Content, parseTok(f[2]), expandTag(f[4]))); err != nil {
 						panic(err)
 					}
-				case f[0] == "blk" && len(f) == 5:
+				case f[0] == "pipe" && len(f) == 2:
+					var all []byte
+					for _, part := range strings.Split(f[1], ",") {
+						kv := strings.SplitN(part, "=", 2)
+						if len(kv) != 2 {
+							panic("bad pipe")
+						}
+						all = append(all, tcpMsg(codes.Content, parseTok(kv[0]), expandTag(kv[1]))...)
+					}
+					if err := peer.Write(all); err != nil {
+						panic(err)
+					}
+				case (f[0] == "blk" || f[0] == "blkc") && len(f) == 5:
 					tok := parseTok(f[1])
 					body := []byte(f[4])
 					for len(body) < 17 {
@@ -525,6 +560,15 @@ func runTCP(t *testing.T, bw bool, ops []string) (out string) {
 						panic(err)
 					}
 					synctest.Wait()
+					if f[0] == "blkc" {
+						// a further CSM that only updates Max-Message-Size: capabilities it does not mention keep their value
+						buf := make([]byte, 4)
+						n, _ := message.EncodeUint32(buf, 4096)
+						if err := peer.Write(tcpMsg(codes.CSM, nil, nil, message.Option{ID: message.TCPMaxMessageSize, Value: buf[:n]})); err != nil {
+							panic(err)
+						}
+						synctest.Wait()
+					}
 					if err := peer.Write(tcpMsg(codes.Content, tok, body[16:], blockOpt(message.Block2, blockwise.SZX16, 1, false))); err != nil {
 						panic(err)
 					}
